@@ -13,7 +13,8 @@ TRUSTED = [
     'sc3/base/builtins.py -> gen/Gen_builtins.v (roundup, mod, round, ceil, floor)',
     'statements dropped by exact shape in t_tempo.py: NotificationCenter.notify, the NRT-return / RT condition notify tail of the setters, '
     'the RT thread set-up at the end of __init__',
-    'hand-written model/Tempo.v: Quant.as_quant, the NRT wake-up of a task handed to sched_abs (ClockTask), histories; tied by correspondence only',
+    'hand-written model/Tempo.v: Quant.as_quant, a task pending in the scheduler (ClockTask beats/seconds, ClockScheduler.retime, wake-up), '
+    'histories; tied by correspondence only (NRT and RT sessions), except that WHICH setters re-time is regenerated (<setter>_retimes)',
     'floats modelled as rationals (exact on the dyadic grid the correspondence uses: power-of-two tempi and meters, dyadic beats/seconds/quants); '
     'binary64 rounding off the grid not verified (e.g. beats_per_bar = 3: bars_per_beat = 1/3 is rounded, so bar arithmetic is only approximately inverse)',
 ]
@@ -21,7 +22,7 @@ ASSUMES = [
     'the clock is running (self.running() is True: always in NRT; a stopped RT clock raises ClockNotRunning)',
     'meter changes are made from a routine playing on the clock (otherwise beats_per_bar raises ClockError)',
     'the logical seconds of a thread are a float (needed only for meter_change_rebases)',
-    'no tempo/beats change between play(quant) and the wake-up of the played task (that interaction is C05/C10, DESIGN F11)',
+    'order in which the scheduler pops several pending tasks is not modelled here (C05/C09); each pending task is followed on its own',
 ]
 
 NAMES = ['tempo', 'beat_dur', 'base_seconds', 'base_beats', 'beats_per_bar', 'bars_per_beat', 'base_bar', 'base_bar_beat']
@@ -125,7 +126,7 @@ def rt_first_play_problem(case, out):
     if q <= 0:
         return None
     b0 = Fraction(int(ev['beats_before'][1]), int(ev['beats_before'][2]))
-    if ((g - p) / q).denominator != 1 or g < b0 or g >= b0 + q + Fraction(1, 4):
+    if ((g - p) / q).denominator != 1 or g < b0:     # no upper bound: physical time passes between the two reads
         return 'first play (RT, main thread) with quant=%s phase=%s at beat %s woke at beat %s' % (q, p, float(b0), g)
     return None
 
